@@ -111,7 +111,16 @@ func newLiveNet(kind string, rc *router.RealmConfig, sc liveServerCfg) (*liveNet
 	return n, nil
 }
 
+// settle gives the goroutines of a finished live case a moment to exit, so that they do not
+// run into the next case (no verdict is taken from this).
+func liveSettle() {
+	for i := 0; i < 200 && sim.LiveNexusGoroutines() > 0; i++ {
+		time.Sleep(10 * time.Millisecond)
+	}
+}
+
 func (n *liveNet) close() {
+	defer liveSettle()
 	for _, c := range n.closers {
 		c.Close()
 	}
